@@ -2,6 +2,7 @@
 //! src/par/cloned_copied.rs), plus `Result`-returning `filter_map` (src/par/fallible.rs):
 //! a fixed battery of terminals per source kind, compared with the collection's own std
 //! iteration.  Lines: `CHK <TAB> property <TAB> name <TAB> ok | FAIL: reason`.
+use orx_concurrent_iter::*;
 use orx_parallel::*;
 use std::collections::{BTreeMap, BTreeSet, BinaryHeap, HashMap, HashSet, LinkedList, VecDeque};
 use std::io::Write;
@@ -10,6 +11,12 @@ use std::panic::{catch_unwind, AssertUnwindSafe};
 pub static ONLY: std::sync::Mutex<String> = std::sync::Mutex::new(String::new());
 
 fn chk<T: PartialEq + std::fmt::Debug>(out: &mut dyn Write, prop: &str, name: &str, what: &str, got: impl FnOnce() -> T, want: T) -> std::io::Result<()> {
+    chk_known(out, prop, name, what, got, want, None)
+}
+
+/// `known`: key of a recorded known finding whose symptom is a panic of this very call; a panic is
+/// then reported as `KNOWN:<key>`, any other difference stays a failure
+fn chk_known<T: PartialEq + std::fmt::Debug>(out: &mut dyn Write, prop: &str, name: &str, what: &str, got: impl FnOnce() -> T, want: T, known: Option<&str>) -> std::io::Result<()> {
     {
         let only = ONLY.lock().unwrap();
         if !only.is_empty() && *only != prop {
@@ -20,18 +27,30 @@ fn chk<T: PartialEq + std::fmt::Debug>(out: &mut dyn Write, prop: &str, name: &s
     let verdict = match r {
         Ok(g) if g == want => "ok".to_string(),
         Ok(g) => format!("FAIL: got {:?} want {:?}", g, want).chars().take(300).collect(),
-        Err(_) => "FAIL: panicked".to_string(),
+        Err(_) => match known {
+            Some(k) => format!("KNOWN:{}", k),
+            None => "FAIL: panicked".to_string(),
+        },
     };
     writeln!(out, "CHK\t{}\t{} {}\t{}", prop, name, what, verdict)
 }
 
 /// `$mk` must evaluate to a fresh `impl Par<Item = u64>` each time; `$exp` is the std order
 macro_rules! battery {
-    ($out:expr, $name:expr, $mk:expr, $exp:expr) => {{
+    ($out:expr, $name:expr, $mk:expr, $exp:expr) => {
+        battery!($out, $name, $mk, $exp, None)
+    };
+    ($out:expr, $name:expr, $mk:expr, $exp:expr, $known:expr) => {{
         let exp: Vec<u64> = $exp;
+        let known_par: Option<&str> = $known;
         for (nt, cs) in [(0usize, 0usize), (1, 0), (2, 1), (5, 3)] {
             let name = format!("{} nt={} cs={}", $name, nt, cs);
-            chk($out, "C01", &name, "collect_vec", || $mk.num_threads(nt).chunk_size(cs).collect_vec(), exp.clone())?;
+            let known = if nt != 1 { known_par } else { None };
+            chk_known($out, "C01", &name, "collect_vec", || $mk.num_threads(nt).chunk_size(cs).collect_vec(), exp.clone(), known)?;
+            chk_known($out, "C01", &name, "map collect (SplitVec)", || pv_to_vec($mk.num_threads(nt).chunk_size(cs).map(|x| x + 7).collect()), exp.iter().map(|x| x + 7).collect::<Vec<_>>(), known)?;
+            chk($out, "C04", &name, "for_each", || { let m = std::sync::Mutex::new(Vec::new()); $mk.num_threads(nt).chunk_size(cs).for_each(|x| m.lock().unwrap().push(x)); let mut w = m.into_inner().unwrap(); w.sort_unstable(); w }, { let mut w = exp.clone(); w.sort_unstable(); w })?;
+            chk($out, "C03", &name, "sum", || $mk.num_threads(nt).chunk_size(cs).fold(|| 0u64, |a, b| a.wrapping_add(b)), exp.iter().fold(0u64, |a, b| a.wrapping_add(*b)))?;
+            chk($out, "C02", &name, "any/all", || ($mk.num_threads(nt).chunk_size(cs).any(|x| x % 7 == 3), $mk.num_threads(nt).chunk_size(cs).all(|x| x % 7 != 3)), (exp.iter().any(|x| x % 7 == 3), exp.iter().all(|x| x % 7 != 3)))?;
             chk($out, "C01", &name, "map+filter collect_vec", || $mk.num_threads(nt).chunk_size(cs).map(|x| x * 3 + 1).filter(|x| x % 2 == 0).collect_vec(), exp.iter().map(|x| x * 3 + 1).filter(|x| x % 2 == 0).collect::<Vec<_>>())?;
             chk($out, "C01", &name, "filter_map(Result) collect_vec", || $mk.num_threads(nt).chunk_size(cs).filter_map(|x| if x % 3 == 0 { Err("multiple of three") } else { Ok(x + 1) }).collect_vec(), exp.iter().filter(|x| *x % 3 != 0).map(|x| x + 1).collect::<Vec<_>>())?;
             chk($out, "C01", &name, "flat_map collect_vec", || $mk.num_threads(nt).chunk_size(cs).flat_map(|x| vec![x; (x % 3) as usize]).collect_vec(), exp.iter().flat_map(|x| vec![*x; (*x % 3) as usize]).collect::<Vec<_>>())?;
@@ -60,6 +79,10 @@ macro_rules! battery {
             )?;
         }
     }};
+}
+
+fn pv_to_vec<V: orx_split_vec::PinnedVec<u64>>(v: V) -> Vec<u64> {
+    (0..v.len()).map(|i| *v.get(i).expect("in bounds")).collect()
 }
 
 pub fn run(out: &mut dyn Write, seed: u64, only: &str) -> std::io::Result<()> {
@@ -107,6 +130,29 @@ pub fn run(out: &mut dyn Write, seed: u64, only: &str) -> std::io::Result<()> {
         let hm: HashMap<u64, u64> = v.iter().enumerate().map(|(i, x)| (i as u64, *x)).collect();
         battery!(out, format!("HashMap.par() {}", tag), hm.par().map(|(k, x)| k * 1000 + x), hm.iter().map(|(k, x)| k * 1000 + x).collect());
         battery!(out, format!("HashMap.into_par() {}", tag), hm.clone().into_par().map(|(k, x)| k * 1000 + x), hm.clone().into_iter().map(|(k, x)| k * 1000 + x).collect());
+    }
+    // concurrent iterators handed to `into_par()` directly (src/into/into_par.rs), fresh and after
+    // the caller has already taken `k` elements: the computation is over the remaining elements
+    const KF: &str = "C01 map-only-parallel-collect:partially-consumed-concurrent-iterator";
+    for &len in &[1usize, 6, 40] {
+        let v: Vec<u64> = (0..len).map(|_| rnd() % 1000).collect();
+        for &k in &[0usize, 1, len / 2, len] {
+            if k > len || (k == len / 2 && (k == 0 || k == 1)) && len > 1 {
+                continue;
+            }
+            let tag = format!("len={} taken={}", len, k);
+            let known = if k > 0 { Some(KF) } else { None };
+            let rest: Vec<u64> = v[k..].to_vec();
+            battery!(out, format!("ConIterOfSlice.into_par().copied {}", tag), { let it = v.as_slice().into_con_iter(); for _ in 0..k { it.next(); } it.into_par().copied() }, rest.clone(), known);
+            battery!(out, format!("ConIterOfSlice(next_chunk).into_par().cloned {}", tag), { let it = v.as_slice().into_con_iter(); if k > 0 { let _ = it.next_chunk(k).map(|c| c.values.count()); } it.into_par().cloned() }, rest.clone(), known);
+            battery!(out, format!("ConIterOfVec.into_par() {}", tag), { let it = v.clone().into_con_iter(); for _ in 0..k { it.next(); } it.into_par() }, rest.clone(), known);
+            battery!(out, format!("ConIterOfVec.into_par().map {}", tag), { let it = v.clone().into_con_iter(); for _ in 0..k { it.next(); } it.into_par().map(|x| x ^ 1) }, rest.iter().map(|x| x ^ 1).collect(), known);
+            battery!(out, format!("ConIterOfIter(exact).into_par() {}", tag), { let it = v.clone().into_iter().into_con_iter(); for _ in 0..k { it.next(); } it.into_par() }, rest.clone(), known);
+            battery!(out, format!("ConIterOfIter(exact).into_par().map {}", tag), { let it = v.clone().into_iter().into_con_iter(); for _ in 0..k { it.next(); } it.into_par().map(|x| x + 1) }, rest.iter().map(|x| x + 1).collect(), known);
+            battery!(out, format!("ConIterOfIter(unknown).into_par() {}", tag), { let it = v.clone().into_iter().filter(|x| x % 13 != 0).into_con_iter(); for _ in 0..k { it.next(); } it.into_par() }, v.iter().copied().filter(|x| x % 13 != 0).skip(k).collect(), known);
+            battery!(out, format!("ConIterOfRange.into_par().map {}", tag), { let it = (5..5 + len).con_iter(); for _ in 0..k { it.next(); } it.into_par().map(|x| x as u64) }, (5 + k as u64..5 + len as u64).collect(), known);
+            battery!(out, format!("Cloned(ConIterOfSlice).into_par() {}", tag), { let it = v.as_slice().into_con_iter().cloned(); for _ in 0..k { it.next(); } it.into_par() }, rest.clone(), known);
+        }
     }
     let arr: [u64; 9] = [5, 3, 8, 8, 1, 0, 13, 21, 4];
     battery!(out, "array.par()".to_string(), arr.par().copied(), arr.to_vec());
